@@ -69,3 +69,12 @@ package vgirpc
 //@   pathvar capE int64
 //@   at load HttpClient.maxEncoded setflag capE value
 //@   at call DecodeContentEncoding assert [encodedcap] arg0 == encoded && len(encoded) <= capE && arg2 == capD
+
+// parseIPCStream: the metadata handed to the caller with a data batch is the batch's own map and
+// carries neither continuation token (an empty value is not a token); the cursor the stream keeps
+// is the one read from that response.
+//
+//@ func (*HttpClient).parseIPCStream
+//@   property C21
+//@   at store ClientBatch.Metadata assert [notokens] value == metadata && (has(value, MetaStreamState) ==> value[MetaStreamState] == "") && (has(value, MetaCallState) ==> value[MetaCallState] == "")
+//@   at store parsedClientStream.token assert [cursorfromresponse] value == token && value != ""
